@@ -19,6 +19,7 @@ def inOrdOp : Op → Bool
   | .nextId => true
   | .sub _ => false
   | .ite _ t e => inOrdOps t && inOrdOps e && decide (docOps t = docOps e)
+  | .finish => false
 def inOrdOps : List Op → Bool
   | [] => true
   | o :: os => inOrdOp o && inOrdOps os
@@ -118,6 +119,7 @@ theorem exec_bdoc (env : Env) : ∀ (n : Nat) (ops : List Op) (b : Builder), ops
           refine ⟨?_, ?_⟩
           · rw [h2.1, h1.1, hte]; simp
           · intro hc; exact h2.2 (h1.2 hc)
+      | finish => simp [inOrdOp] at ho
 
 
 /-! ### `finish`, `take_chunks`, the resolved in-order future -/
@@ -302,6 +304,10 @@ theorem exec_fields (env : Env) : ∀ (n : Nat) (ops : List Op) (b : Builder), o
         · have h1 := ih e b (by omega)
           have h2 := ih os (execOps env e b) (by omega)
           exact ⟨h2.1.trans h1.1, h2.2.trans h1.2⟩
+      · have := ih os b.finish (by omega)
+        have hf : b.finish.pending = b.pending ∧ b.finish.pendingOoo = b.pendingOoo := by
+          unfold Builder.finish; split <;> simp
+        exact ⟨this.1.trans hf.1, this.2.trans hf.2⟩
 
 /-! ## fuel: every activation of `poll_next` consumes the measure `mu` (all programs) -/
 
@@ -337,6 +343,17 @@ theorem csum_flushed (b : Builder) : csum b.flushed = b.phi := by
 theorem phi_writeMarker (b : Builder) (o : Bool) :
     (b.writeMarker o).chunks = b.chunks ∧ (b.writeMarker o).id = b.id := by
   unfold Builder.writeMarker; split <;> simp
+
+theorem csum_finishChunks (cs : List Chunk) (rest : Str) : csum (Builder.finishChunks cs rest) ≤ csum cs + 2 := by
+  fun_induction Builder.finishChunks cs rest <;> simp_all [chunkSize] <;> omega
+
+theorem phi_finish (b : Builder) : b.finish.phi ≤ b.phi := by
+  unfold Builder.finish
+  split
+  · exact Nat.le_refl _
+  · rename_i h
+    have := csum_finishChunks b.chunks b.syncBuf
+    simp [Builder.phi, h]; omega
 
 theorem exec_phi (env : Env) : ∀ (n : Nat) (ops : List Op) (b : Builder), opsSize ops ≤ n →
     (execOps env ops b).phi ≤ b.phi + 2 * opsSize ops := by
@@ -400,9 +417,9 @@ theorem exec_phi (env : Env) : ∀ (n : Nat) (ops : List Op) (b : Builder), opsS
         · have h1 := ih e b (by omega)
           have h2 := ih os (execOps env e b) (by omega)
           omega
-
-theorem csum_finishChunks (cs : List Chunk) (rest : Str) : csum (Builder.finishChunks cs rest) ≤ csum cs + 2 := by
-  fun_induction Builder.finishChunks cs rest <;> simp_all [chunkSize] <;> omega
+      · have := ih os b.finish (by omega)
+        have h2 : b.finish.phi ≤ b.phi := phi_finish b
+        omega
 
 theorem csum_finish_take (b : Builder) : csum b.finish.takeChunks ≤ b.phi := by
   unfold Builder.finish Builder.takeChunks
@@ -591,6 +608,7 @@ def futsOp : Op → List FId
   | .nextId => []
   | .sub body => futsOps body
   | .ite fut t e => fut.deps ++ (futsOps t ++ futsOps e)
+  | .finish => []
 def futsOps : List Op → List FId
   | [] => []
   | o :: os => futsOp o ++ futsOps os
@@ -629,6 +647,10 @@ theorem wf_flushed (D : List FId) (n : Nat) (b : Builder) (h : ∀ c ∈ b.chunk
     rcases List.mem_append.1 hc with hc | hc
     · exact h c hc
     · simp at hc; subst hc; trivial
+
+theorem wf_finishChunks (D : List FId) (n : Nat) (cs : List Chunk) (rest : Str) (h : ∀ c ∈ cs, c.wf D n) :
+    ∀ c ∈ Builder.finishChunks cs rest, c.wf D n := by
+  fun_induction Builder.finishChunks cs rest <;> simp_all [Chunk.wf]
 
 theorem exec_wf (env : Env) (D : List FId) (m : Nat) (hm : env.now ≤ m) : ∀ (n : Nat) (ops : List Op) (b : Builder),
     opsSize ops ≤ n → (∀ f ∈ futsOps ops, f ∈ D) → (∀ c ∈ b.chunks, c.wf D m) →
@@ -688,10 +710,10 @@ theorem exec_wf (env : Env) (D : List FId) (m : Nat) (hm : env.now ≤ m) : ∀ 
             (ih t b (by omega) (fun f hf' => hf f (Or.inl (by simp [futsOp, hf']))) hc)
         · exact ih os _ (by omega) hfo
             (ih e b (by omega) (fun f hf' => hf f (Or.inl (by simp [futsOp, hf']))) hc)
-
-theorem wf_finishChunks (D : List FId) (n : Nat) (cs : List Chunk) (rest : Str) (h : ∀ c ∈ cs, c.wf D n) :
-    ∀ c ∈ Builder.finishChunks cs rest, c.wf D n := by
-  fun_induction Builder.finishChunks cs rest <;> simp_all [Chunk.wf]
+      · apply ih os _ (by omega) hfo
+        unfold Builder.finish; split
+        · exact hc
+        · exact wf_finishChunks D m b.chunks b.syncBuf hc
 
 theorem wf_finish_take (D : List FId) (n : Nat) (b : Builder) (h : ∀ c ∈ b.chunks, c.wf D n) :
     ∀ c ∈ b.finish.takeChunks, c.wf D n := by
